@@ -9,10 +9,13 @@ enum { L_GOOD = 0, L_EXPIRED_LEAF, L_NOTYET_LEAF, L_UNTRUSTED, L_SIG_CORRUPT, L_
        L_N,                                    /* labels a MatrixSSL prover can be asked to present (stage 1) end here */
        /* labels aimed at validation paths that fail with a return code rather than an authStatus; only a foreign prover sends these */
        L_UNTRUSTED_ROOT_SENT = L_N, L_UNTRUSTED_SS_NOKU_1990, L_CA_KU_NO_CERTSIGN, L_V1_INT, L_INT_UNKNOWN_CRIT, L_LEAF_CRIT_EKU, L_INT_MD5, L_INT_SHA1, L_AKI_MISMATCH,
-       L_DUP_GOOD, L_DUP_UNTRUSTED, L_ORDER_GOOD, L_ORDER_UNTRUSTED, L_EXTRA_GOOD, L_EXTRA_UNTRUSTED, L_UNRELATED_ANCHOR_APPENDED, L_NALL };
+       L_DUP_GOOD, L_DUP_UNTRUSTED, L_ORDER_GOOD, L_ORDER_UNTRUSTED, L_EXTRA_GOOD, L_EXTRA_UNTRUSTED, L_UNRELATED_ANCHOR_APPENDED,
+       /* intermediate WITHOUT a basicConstraints extension (RFC 5280 4.2.1.9 / 6.1.4 (k): not a CA whatever its keyUsage says; PKITS 4.6.1) */
+       L_INT_NO_BC_KU_CERTSIGN, L_INT_NO_BC_NO_KU, L_INT_NO_BC_NO_KU_1990, L_INT_NO_BC_KU_DIGSIG, L_NALL };
 static const char *lname[] = { "good", "expired-leaf", "not-yet-valid-leaf", "untrusted-ca", "signature-corrupt", "wrong-expected-name", "issuer-not-ca", "unknown-critical-extension", "expired-intermediate", "self-signed-unanchored", "wrong-key-proof-of-possession", "anchor-pathlen-exceeded", "intermediate-pathlen-exceeded", "verifier-has-no-trust-anchors",
                                "untrusted-root-sent-along", "untrusted-ca-no-keyusage-1990-sent-along", "ca-keyusage-lacks-keycertsign", "v1-intermediate", "intermediate-unknown-critical-extension", "leaf-critical-eku-without-tls-purpose", "md5-signed-intermediate", "sha1-signed-intermediate", "leaf-signed-by-other-key-aki-mismatch",
-                               "duplicate-intermediate", "duplicate-untrusted-root", "chain-in-wrong-order", "untrusted-chain-in-wrong-order", "unrelated-certificate-appended", "untrusted+unrelated-cert-appended", "unrelated-trust-anchor-appended" };
+                               "duplicate-intermediate", "duplicate-untrusted-root", "chain-in-wrong-order", "untrusted-chain-in-wrong-order", "unrelated-certificate-appended", "untrusted+unrelated-cert-appended", "unrelated-trust-anchor-appended",
+                               "intermediate-without-basicconstraints-keyusage-keycertsign", "intermediate-without-basicconstraints-and-keyusage", "intermediate-without-basicconstraints-and-keyusage-dated-1990", "intermediate-without-basicconstraints-keyusage-lacks-keycertsign" };
 /* what the label means for the verifier */
 enum { V_GOOD = 0,   /* must be accepted */
        V_FAIL,       /* chain validation must fail: completion only through the application's explicit override */
@@ -50,6 +53,7 @@ static sslCertCb_t cb_fn(int mode)
 }
 static void cb_reset(void) { cb_calls = cb_nonzero = cb_last = cb_chainlen = 0; }
 
+#define L_INT_NO_BC(l) ((l) == L_INT_NO_BC_KU_CERTSIGN || (l) == L_INT_NO_BC_NO_KU || (l) == L_INT_NO_BC_NO_KU_1990 || (l) == L_INT_NO_BC_KU_DIGSIG)
 #define MINT_MAXCHAIN 6
 typedef struct {
     cg_cert chain[MINT_MAXCHAIN]; int nchain;   /* as the prover presents it, leaf first */
@@ -79,7 +83,7 @@ static int mint_der(int leafType, int verifierIsServer, int label, int viaInt, m
     int underOther = label == L_UNTRUSTED_ROOT_SENT || label == L_UNTRUSTED_SS_NOKU_1990 || label == L_DUP_UNTRUSTED;     /* the leaf's real issuer is the root the verifier does not trust */
     int useInt2 = label == L_INT_PATHLEN || label == L_ORDER_GOOD || label == L_ORDER_UNTRUSTED;
     int useInt = !underOther && (label == L_ISSUER_NOT_CA || label == L_EXPIRED_INT || label == L_ANCHOR_PATHLEN || label == L_INT_PATHLEN || useInt2 || label == L_CA_KU_NO_CERTSIGN || label == L_V1_INT || label == L_INT_UNKNOWN_CRIT
-                                 || label == L_INT_MD5 || label == L_INT_SHA1 || label == L_DUP_GOOD || label == L_EXTRA_GOOD || (viaInt && label_allows_via(label)));
+                                 || label == L_INT_MD5 || label == L_INT_SHA1 || L_INT_NO_BC(label) || label == L_DUP_GOOD || label == L_EXTRA_GOOD || (viaInt && label_allows_via(label)));
     if (useInt) {
         cg_spec_ca(&inter, "Verif C04", "c04 intermediate", intK, &root, rootK, now, label == L_INT_PATHLEN ? 0 : -1);
         if (useInt2) cg_spec_ca(&inter2, "Verif C04", "c04 second intermediate", int2K, &inter, intK, now, -1);
@@ -87,6 +91,10 @@ static int mint_der(int leafType, int verifierIsServer, int label, int viaInt, m
         if (label == L_EXPIRED_INT) { inter.not_before = now - 400L * 86400; inter.not_after = now - 10L * 86400; }
         if (label == L_CA_KU_NO_CERTSIGN) inter.ku_bits = CG_KU_DIGSIG | CG_KU_CRLSIGN;
         if (label == L_V1_INT) inter.version = 0;
+        if (L_INT_NO_BC(label)) { inter.bc = 0;                                           /* v3, every other extension as a CA would carry it; only basicConstraints is absent */
+            if (label == L_INT_NO_BC_NO_KU || label == L_INT_NO_BC_NO_KU_1990) inter.ku = 0;
+            if (label == L_INT_NO_BC_NO_KU_1990) inter.not_before = 631152000L;           /* 1990-01-01: older than RFC 3280, the age up to which the library tolerates a missing keyUsage */
+            if (label == L_INT_NO_BC_KU_DIGSIG) inter.ku_bits = CG_KU_DIGSIG | CG_KU_CRLSIGN; }
         if (label == L_INT_UNKNOWN_CRIT) inter.unk = 2;
         if (label == L_INT_MD5) inter.sigalg = CG_RSA_MD5;
         if (label == L_INT_SHA1) inter.sigalg = rootType == CG_K_RSA2048 ? CG_RSA_SHA1 : CG_ECDSA_SHA1;
